@@ -34,5 +34,7 @@ let median_case check raw (rest : string list) =
 let dispatch check diff (k : string) (toks : string list) (raw : string) =
   if k = "M" then median_case check raw (Stdlib.List.tl toks) else
   if Storedrv.handle check diff toks raw then () else
+  if Gatedrv.handle check diff toks raw then () else
+  if Proxydrv.handle check diff toks raw then () else
   if Hgdrv.handle check diff toks raw then ()
   else failwith ("unknown case kind " ^ k)
